@@ -25,7 +25,7 @@ impl core::hash::Hasher for CountHasher {
 }
 
 /// `k` push_front (front position N-1, N-2, ..), `j` push_back, then one symbolic operation
-pub fn zst_op<const N: usize, const P: u32, S: Src>(s: &mut S) {
+pub fn zst_op<const N: usize, const G: usize, const P: u32, S: Src>(s: &mut S) {
     let mut b = CircularBuffer::<N, Z>::new();
     zreset();
     let k = s.usize();
@@ -50,198 +50,241 @@ pub fn zst_op<const N: usize, const P: u32, S: Src>(s: &mut S) {
     chk!(!b.is_full() && (b.is_empty() == (len == 0)), "zst: emptiness/fullness after the pushes");
     cov!(k == 3 && j == 3, "zst: contents wrap around position N");
     cov!(k == 0 && j > 0, "zst: front at position 0");
+    // G selects a group of five operations at compile time (keeps each query small)
     let op = s.u8();
-    s.assume(op < 20);
+    let group = if op < 15 { (op as usize) / 5 } else if op < 17 { 3 } else { (op as usize) - 13 };
+    s.assume(op < 20 && group == G);
     let a = s.usize();
     let c = s.usize();
     cov!(a == usize::MAX, "zst: argument usize::MAX");
     let mut expect_len = len;
     let mut expect_drops = 0u64;
-    match op {
-        0 => {
-            let r = b.pop_front();
-            chk!(r.is_some() == (len > 0), "zst: pop_front");
-            if r.is_some() {
-                expect_len -= 1;
-            }
-            core::mem::forget(r);
-        }
-        1 => {
-            let r = b.pop_back();
-            chk!(r.is_some() == (len > 0), "zst: pop_back");
-            if r.is_some() {
-                expect_len -= 1;
-            }
-            core::mem::forget(r);
-        }
-        2 => {
-            let r = b.try_push_back(Z);
-            chk!(r.is_ok(), "zst: try_push_back with room");
-            core::mem::forget(r);
-            expect_len += 1;
-        }
-        3 => {
-            let r = b.try_push_front(Z);
-            chk!(r.is_ok(), "zst: try_push_front with room");
-            core::mem::forget(r);
-            expect_len += 1;
-        }
-        4 => {
-            chk!(b.get(a).is_some() == (a < len), "zst: get");
-            chk!(b.nth_front(a).is_some() == (a < len), "zst: nth_front");
-            chk!(b.nth_back(a).is_some() == (a < len), "zst: nth_back");
-            chk!(b.front().is_some() == (len > 0), "zst: front");
-            chk!(b.back().is_some() == (len > 0), "zst: back");
-            chk!(b.get_mut(a).is_some() == (a < len), "zst: get_mut");
-        }
-        5 => {
-            s.assume(a < len && c < len);
-            b.swap(a, c);
-        }
-        6 => {
-            let r = b.swap_remove_back(a);
-            chk!(r.is_some() == (a < len), "zst: swap_remove_back");
-            if r.is_some() {
-                expect_len -= 1;
-            }
-            core::mem::forget(r);
-        }
-        7 => {
-            let r = b.swap_remove_front(a);
-            chk!(r.is_some() == (a < len), "zst: swap_remove_front");
-            if r.is_some() {
-                expect_len -= 1;
-            }
-            core::mem::forget(r);
-        }
-        8 => {
-            let r = b.remove(a);
-            chk!(r.is_some() == (a < len), "zst: remove");
-            if r.is_some() {
-                expect_len -= 1;
-            }
-            core::mem::forget(r);
-        }
-        9 => {
-            b.truncate_back(a);
-            if a < len {
-                expect_drops = (len - a) as u64;
-                expect_len = a;
-            }
-        }
-        10 => {
-            b.truncate_front(a);
-            if a < len {
-                expect_drops = (len - a) as u64;
-                expect_len = a;
-            }
-        }
-        11 => {
-            b.clear();
-            expect_drops = len as u64;
-            expect_len = 0;
-        }
-        12 => {
-            let r = SymRange::any(s);
-            s.assume(!r.must_panic(len));
-            let (x, y) = r.math(len);
-            let (x, y) = (x as usize, y as usize);
-            let mut d = b.drain(r);
-            chk!(d.len() == y - x, "zst: drain length");
-            let mut taken = 0;
-            let steps = s.usize();
-            s.assume(steps <= 2);
-            let mut i = 0;
-            while i < steps {
-                let t = if s.bool() { d.next() } else { d.next_back() };
-                if t.is_some() {
-                    taken += 1;
+    if G == 0 {
+        match op {
+            0 => {
+                let r = b.pop_front();
+                chk!(r.is_some() == (len > 0), "zst: pop_front");
+                if r.is_some() {
+                    expect_len -= 1;
                 }
-                core::mem::forget(t);
-                i += 1;
+                core::mem::forget(r);
             }
-            drop(d);
-            expect_drops = (y - x - taken) as u64;
-            expect_len = len - (y - x);
-        }
-        13 => {
-            let (x, y) = b.as_slices();
-            chk!(x.len() + y.len() == len, "zst: as_slices lengths");
-            let (x, y) = b.as_mut_slices();
-            chk!(x.len() + y.len() == len, "zst: as_mut_slices lengths");
-            chk!(b.iter().len() == len, "zst: iter length");
-            let mut it = b.iter();
-            let mut n = 0;
-            while it.next().is_some() {
-                n += 1;
+            1 => {
+                let r = b.pop_back();
+                chk!(r.is_some() == (len > 0), "zst: pop_back");
+                if r.is_some() {
+                    expect_len -= 1;
+                }
+                core::mem::forget(r);
             }
-            chk!(n == len, "zst: iter yields len elements");
-        }
-        14 => {
-            let r = SymRange::any(s);
-            s.assume(!r.must_panic(len));
-            let (x, y) = r.math(len);
-            let mut it = b.range(r);
-            chk!(it.len() == (y - x) as usize, "zst: range length");
-            let mut n = 0;
-            while it.next_back().is_some() {
-                n += 1;
+            2 => {
+                let r = b.try_push_back(Z);
+                chk!(r.is_ok(), "zst: try_push_back with room");
+                core::mem::forget(r);
+                expect_len += 1;
             }
-            chk!(n == (y - x) as usize, "zst: range yields the selected elements");
+            3 => {
+                let r = b.try_push_front(Z);
+                chk!(r.is_ok(), "zst: try_push_front with room");
+                core::mem::forget(r);
+                expect_len += 1;
+            }
+            _ => {
+                chk!(b.get(a).is_some() == (a < len), "zst: get");
+                chk!(b.nth_front(a).is_some() == (a < len), "zst: nth_front");
+                chk!(b.nth_back(a).is_some() == (a < len), "zst: nth_back");
+                chk!(b.front().is_some() == (len > 0), "zst: front");
+                chk!(b.back().is_some() == (len > 0), "zst: back");
+                chk!(b.get_mut(a).is_some() == (a < len), "zst: get_mut");
+            }
         }
-        15 => {
-            let src = [Z, Z, Z];
-            s.assume(a <= 3);
-            b.extend_from_slice(&src[..a]);
-            core::mem::forget(src);
-            expect_len += a;
+    }
+    if G == 1 {
+        match op {
+            5 => {
+                s.assume(a < len && c < len);
+                b.swap(a, c);
+            }
+            6 => {
+                let r = b.swap_remove_back(a);
+                chk!(r.is_some() == (a < len), "zst: swap_remove_back");
+                if r.is_some() {
+                    expect_len -= 1;
+                }
+                core::mem::forget(r);
+            }
+            7 => {
+                let r = b.swap_remove_front(a);
+                chk!(r.is_some() == (a < len), "zst: swap_remove_front");
+                if r.is_some() {
+                    expect_len -= 1;
+                }
+                core::mem::forget(r);
+            }
+            8 => {
+                let r = b.remove(a);
+                chk!(r.is_some() == (a < len), "zst: remove");
+                if r.is_some() {
+                    expect_len -= 1;
+                }
+                core::mem::forget(r);
+            }
+            _ => {
+                b.truncate_back(a);
+                if a < len {
+                    expect_drops = (len - a) as u64;
+                    expect_len = a;
+                }
+            }
         }
-        16 => {
-            s.assume(a <= 3);
-            let mut n = 0;
-            b.extend(core::iter::from_fn(|| {
-                if n < a {
+    }
+    if G == 2 {
+        match op {
+            10 => {
+                b.truncate_front(a);
+                if a < len {
+                    expect_drops = (len - a) as u64;
+                    expect_len = a;
+                }
+            }
+            11 => {
+                b.clear();
+                expect_drops = len as u64;
+                expect_len = 0;
+            }
+            12 => {
+                let r = SymRange::any(s);
+                s.assume(!r.must_panic(len));
+                let (x, y) = r.math(len);
+                let (x, y) = (x as usize, y as usize);
+                let mut d = b.drain(r);
+                chk!(d.len() == y - x, "zst: drain length");
+                let mut taken = 0;
+                let steps = s.usize();
+                s.assume(steps <= 2);
+                let mut i = 0;
+                while i < steps {
+                    let t = if s.bool() { d.next() } else { d.next_back() };
+                    if t.is_some() {
+                        taken += 1;
+                    }
+                    core::mem::forget(t);
+                    i += 1;
+                }
+                drop(d);
+                expect_drops = (y - x - taken) as u64;
+                expect_len = len - (y - x);
+            }
+            13 => {
+                let (x, y) = b.as_slices();
+                chk!(x.len() + y.len() == len, "zst: as_slices lengths");
+                let (x, y) = b.as_mut_slices();
+                chk!(x.len() + y.len() == len, "zst: as_mut_slices lengths");
+                chk!(b.iter().len() == len, "zst: iter length");
+                let mut it = b.iter();
+                let mut n = 0;
+                while it.next().is_some() {
                     n += 1;
-                    Some(Z)
-                } else {
-                    None
                 }
-            }));
-            expect_len += a;
-        }
-        17 => {
-            let sl = b.make_contiguous();
-            chk!(sl.len() == len, "zst: make_contiguous returns all elements");
-            chk!(b.as_slices().1.is_empty(), "zst: single slice after make_contiguous");
-        }
-        18 => {
-            let mut o = CircularBuffer::<N, Z>::new();
-            s.assume(a <= 2);
-            let mut i = 0;
-            while i < a {
-                core::mem::forget(o.push_back(Z));
-                i += 1;
+                chk!(n == len, "zst: iter yields len elements");
             }
-            let before = zdrops();
-            b.clone_from(&o);
-            chk!(zdrops() - before == len as u64, "zst: clone_from destroys the old elements");
-            expect_drops = len as u64;
-            expect_len = a;
-            core::mem::forget(o);
+            _ => {
+                let r = SymRange::any(s);
+                s.assume(!r.must_panic(len));
+                let (x, y) = r.math(len);
+                let mut it = b.range(r);
+                chk!(it.len() == (y - x) as usize, "zst: range length");
+                let mut n = 0;
+                while it.next_back().is_some() {
+                    n += 1;
+                }
+                chk!(n == (y - x) as usize, "zst: range yields the selected elements");
+            }
         }
-        _ => {
-            let f = CircularBuffer::<N, Z>::from([Z, Z]);
-            chk!(f.len() == 2, "zst: From<[Z; 2]>");
-            core::mem::forget(f);
+    }
+    if G == 3 {
+        match op {
+            15 => {
+                let src = [Z, Z, Z];
+                s.assume(a <= 3);
+                b.extend_from_slice(&src[..a]);
+                core::mem::forget(src);
+                expect_len += a;
+            }
+            _ => {
+                s.assume(a <= 3);
+                let mut n = 0;
+                b.extend(core::iter::from_fn(|| {
+                    if n < a {
+                        n += 1;
+                        Some(Z)
+                    } else {
+                        None
+                    }
+                }));
+                expect_len += a;
+            }
+        }
+    }
+    if G == 4 {
+        match op {
+            _ => {
+                let sl = b.make_contiguous();
+                chk!(sl.len() == len, "zst: make_contiguous returns all elements");
+                chk!(b.as_slices().1.is_empty(), "zst: single slice after make_contiguous");
+            }
+        }
+    }
+    if G == 5 {
+        match op {
+            _ => {
+                let mut o = CircularBuffer::<N, Z>::new();
+                s.assume(a <= 2);
+                let mut i = 0;
+                while i < a {
+                    core::mem::forget(o.push_back(Z));
+                    i += 1;
+                }
+                let before = zdrops();
+                b.clone_from(&o);
+                if N < (1usize << 63) {
+                    chk!(zdrops() - before == len as u64, "zst: clone_from destroys the old elements");
+                }
+                expect_drops = len as u64;
+                expect_len = a;
+                core::mem::forget(o);
+            }
+        }
+    }
+    if G == 6 {
+        match op {
+            _ => {
+                let f = CircularBuffer::<N, Z>::from([Z, Z]);
+                chk!(f.len() == 2, "zst: From<[Z; 2]>");
+                core::mem::forget(f);
+            }
         }
     }
     chk!(b.len() == expect_len, "zst: length follows the sequence semantics");
     chk!(b.is_empty() == (expect_len == 0), "zst: is_empty follows the sequence semantics");
     chk!(!b.is_full(), "zst: a huge buffer with a few elements is not full");
-    chk!(zdrops() == expect_drops, "zst: number of destructor runs follows the sequence semantics");
+    // Destructor counts are asserted at capacities below 2^63 only: with them in the formula CBMC 6.11 hits an
+    // internal invariant (boolbv_width of `[Z; N]`, N >= 2^63) once both push_front and push_back are reachable.
+    // Lengths, results and the absence of overflow / division / bounds failures are asserted at every capacity.
+    let counting = N < (1usize << 63);
+    if counting {
+        chk!(zdrops() == expect_drops, "zst: number of destructor runs follows the sequence semantics");
+    }
     let before = zdrops();
-    drop(b);
-    chk!(zdrops() - before == expect_len as u64, "zst: dropping the buffer destroys the remaining elements once");
+    // the buffer's destructor, run in place: moving a `[Z; 2^63]` by value into `drop()` trips a CBMC
+    // invariant (boolbv_width) at capacities >= 2^63; `drop_in_place` is the same destructor without the move
+    unsafe {
+        core::ptr::drop_in_place(&mut b as *mut CircularBuffer<N, Z>);
+    }
+    core::mem::forget(b);
+    if counting {
+        chk!(zdrops() - before == expect_len as u64, "zst: dropping the buffer destroys the remaining elements once");
+    }
 }
 
 /// `==` and `Hash` for zero-sized elements at extreme capacities
